@@ -5,7 +5,8 @@ from vcore import hexs
 ID = "C04"
 LEVEL = "proof"
 _T = ["md_chunks", "sha256_chunks", "sha512_chunks", "blake2b_chunks", "generichash_spec", "kdf_blake2b_spec",
-      "poly1305_chunks", "hmac_chunks", "hkdf_expand_eq_rfc"]
+      "poly1305_chunks", "hmac_chunks", "hkdf_expand_eq_rfc", "chunkLaw_sha256", "chunkLaw_sha512", "hmacsha256_chunks",
+      "hmacsha512_chunks", "hkdf_sha256_expand", "hkdf_sha512_expand"]
 THEOREMS = vcore.theorems_in("SodiumModel/Properties/C04.lean", _T, "Sodium.C04")
 IMPORTS = ["SodiumModel.Properties.C04"] if THEOREMS else ["SodiumModel.Model.Hash"]
 RULE = ("every message length 0..1100 one-shot; chunk lists: all 2-way splits at block boundaries +-1, 3-way splits, random splits with "
